@@ -190,6 +190,7 @@ func checkC09(p *Prog, res *Result, tier string) {
 		}
 	}
 	checkContradictoryClassification(p, res, "C09-R9")
+	checkSentinelIdentity(p, res, "C09-R9")
 	// sentinel discipline: wrapped sentinels compared with ==
 	for _, g := range []*ssa.Global{uncertain, casFailed} {
 		cmps := sentinelEqComparisons(p, g)
